@@ -281,13 +281,17 @@ def reader_features(prog: Program, cls) -> set[str]:
                 if s[0] == "attr" and s[1] in (C.sattr("t"), C.sattr("origin")) and s[2] in ("__members__", "_member_map_", "_member_names_"):
                     feats.add("by-name")
         if p.exit[0] == "return":
-            r = p.exit[1]
-            if r == ("param", "val"):
-                feats.add("identity")
-            if r[0] == "call" and r[1] in (C.sattr("t"), C.sattr("caster"), C.sattr("origin")):
-                if r[2] and not r[3] and len(r[2]) == 1 and r[2][0][0] != "star":
-                    feats.add("ctor-1")
-                feats.add("ctor")
+            # (a returned conditional expression answers with either arm)
+            arms = [p.exit[1]]
+            while any(a[0] == "ifexp" for a in arms):
+                arms = [b for a in arms for b in ((a[2], a[3]) if a[0] == "ifexp" else (a,))]
+            for r in arms:
+                if r == ("param", "val"):
+                    feats.add("identity")
+                if r[0] == "call" and r[1] in (C.sattr("t"), C.sattr("caster"), C.sattr("origin")):
+                    if r[2] and not r[3] and len(r[2]) == 1 and r[2][0][0] != "star":
+                        feats.add("ctor-1")
+                    feats.add("ctor")
     return feats
 
 
